@@ -57,26 +57,26 @@ CLAIMED = {
     ),
     "C11": (
         ["Backup", "MC_Backup", "Gen_Backup", "Trace_Backup", "Pipeline", "Gen_Pipeline", "Trace_Pipeline"],
-        "TLA+ crash model of the database files (main, -wal, -shm, backup, temp) with one action per file-visible step of open/backup/overwrite/commit/close and a Crash action at every step; "
+        "TLA+ crash model of the database files (main, -wal, -shm, rollback journal, backup, temp; journal mode stored in every file header; start states: library database / rollback-mode database / empty file / absent) with one action per file-visible step of open/backup/overwrite (also one that spills before its commit)/commit/close and a Crash action at every step; "
         "TLC checks 'fresh => visible = expected'; the real flows are killed at every executed source line (sys.settrace + os._exit) in child processes, reopened in another process and "
         "compared with the model by observed file state; observed file-state traces validated by TLC",
         "Bounded-exhaustive model checking over every call order and crash position (3-4 consecutive process runs) plus fault enumeration of the real code: kill at every executed line of "
         "create_db/backup_db/close_db_conn/add_page/overwrite flows (quick: stride + step boundaries; thorough: every line, two levels of crashes), reopen, compare pages and integrity_check with the model.",
-        "process death (os._exit), not power loss; SQLite WAL semantics as encoded (validated by replay); deviation switches StaleWalKept/BackupNotAtomic kept for Demo configs.",
+        "process death (os._exit), not power loss; SQLite WAL / rollback-journal semantics as encoded (validated by replay); deviation switches StaleWalKept/BackupNotAtomic/JournalModeKept kept for Demo configs.",
         "DESIGN.md §5 C11, notes/C11.md",
     ),
     "C20": (
         ["Workers", "MC_Workers", "Gen_Workers", "Trace_Workers"],
-        "TLA+ model of N worker processes (start-up restore steps, connect, schema, reads, bootstrap-page write, commit, close; the creating context as a process that only closes) under SQLite WAL locking and checkpoint rules; TLC explores all interleavings of 2-3 workers and every placement of the closes; "
+        "TLA+ model of N worker processes (start-up restore steps, connect, schema, reads, bootstrap-page write, commit, close; the creating context as a process that only closes) under SQLite locking and checkpoint rules (WAL, and rollback-journal mode for databases whose provenance - restored from a backup, header mode dropped - leaves them in it; the journal mode is state every open re-establishes); TLC explores all interleavings of 2-3 workers and every placement of the closes; "
         "TLC-generated schedules are replayed on real forked processes under harness-side schedule control (wrappers on os/sqlite3 operations), recorded (process, op, result) traces validated by a TLC trace spec; free-running stress with 2..16 workers",
         "Bounded-exhaustive interleavings in the model; schedule replay + trace validation on the real code; stress runs. Two listed findings (restore race on start-up, bootstrap write under an open cursor) are reported as KNOWN-FINDING; any failure not explained by them is a VIOLATION.",
-        "schedule points are the wrapped operations; WAL mode; existing populated database; stress linearisation approximate (re-validated over interval-compatible orders).",
+        "schedule points are the wrapped operations; existing populated database; stress linearisation approximate (re-validated over interval-compatible orders).",
         "DESIGN.md §5 C20, notes/C20.md",
     ),
     "C17": (
         ["Analyze", "MC_Analyze", "Gen_Analyze", "Trace_Analyze"],
         "TLA+ state machine of analyze_templates (classifier pass, included_map, worklist, cache clearing, the two redirect updates) over PageStore; TLC checks termination and marked = least closure + redirect neighbours; "
-        "all inclusion graphs up to the bound x flag sets x redirect placements x name spellings run on the real analyze_templates; random 8-template worlds recorded and validated by TLC",
+        "all inclusion graphs up to the bound x flag sets x redirect placements x name spellings run on the real analyze_templates; random 8-template worlds recorded and validated by TLC; a call may start from earlier marks (add_page(need_pre_expand=True), an earlier analysis, an overwrite file) and histories add / analyse / overwrite / analyse again are model-checked (Rerun) and replayed / recorded",
         "Bounded-exhaustive (<=3 templates quick, <=4 thorough, simulated 8-template worlds) model checking plus conformance of the real need_pre_expand marks on every generated world and on recorded random worlds.",
         "classifier returns the written names of the graph; redirect semantics read literally (one application of each update); PageStore title resolution reused.",
         "DESIGN.md §5 C17, notes/C17.md",
